@@ -8,8 +8,9 @@ import (
 
 func TestReplay(t *testing.T) {
 	verif.ReplayMain(map[string]func(){
-		"HarnessPingsDisabled": HarnessPingsDisabled,
-		"HarnessRenewals":      HarnessRenewals,
-		"HarnessSilentPeer":    HarnessSilentPeer,
+		"HarnessPingsDisabled":       HarnessPingsDisabled,
+		"HarnessPongsAfterReconnect": HarnessPongsAfterReconnect,
+		"HarnessRenewals":            HarnessRenewals,
+		"HarnessSilentPeer":          HarnessSilentPeer,
 	})
 }
